@@ -163,8 +163,16 @@ func runC18(c *Ctx) {
 			rcells = append(rcells, rcell{scen: "fail", n: n, pos: pos, fail: fails[(n+pos)%3]})
 		}
 	}
+	// a failing server directly after every listener kind (the close then races with the start of
+	// the previous server's accept loop)
+	for ki, k := range c18ListenerKinds {
+		rcells = append(rcells, rcell{scen: "failafter:" + k, n: 2, pos: 1, fail: fails[ki%3]})
+	}
 	for rep := 1; rep < reps; rep++ {
 		rcells = append(rcells, rcell{scen: "full"})
+		for ki, k := range c18ListenerKinds {
+			rcells = append(rcells, rcell{scen: "failafter:" + k, n: 2, pos: 1, fail: fails[(ki+rep)%3]})
+		}
 	}
 	parallelFor(len(rcells), 8, nil, func(i int) {
 		rc := rcells[i]
@@ -173,6 +181,8 @@ func runC18(c *Ctx) {
 		cellName := rc.scen
 		if rc.scen == "fail" {
 			cellName = fmt.Sprintf("fail/%s/n%d/pos%d", rc.fail, rc.n, rc.pos)
+		} else if strings.HasPrefix(rc.scen, "failafter:") {
+			cellName = fmt.Sprintf("fail/%s/after-%s", rc.fail, strings.TrimPrefix(rc.scen, "failafter:"))
 		}
 		c18Judge(c, "router", cellName, out, exit, killed, map[string]any{"scenario": rc.scen, "servers": rc.n, "failing_position": rc.pos, "failure": rc.fail})
 	})
@@ -418,6 +428,11 @@ func waitBindable(kind, addr string, grace time.Duration) error {
 // vharness child c18rt <full|fail> <n> <pos> <failure> <seed>
 func c18RouterChild(args []string) int {
 	scen := args[0]
+	forcedFirst := ""
+	if strings.HasPrefix(scen, "failafter:") {
+		forcedFirst = strings.TrimPrefix(scen, "failafter:")
+		scen = "fail"
+	}
 	n, _ := strconv.Atoi(args[1])
 	pos, _ := strconv.Atoi(args[2])
 	failure := args[3]
@@ -498,51 +513,68 @@ func c18RouterChild(args []string) int {
 		srvs = append(srvs, srv{kind, addr})
 		return sc
 	}
+	var buildFail func() bool
 	if scen == "full" {
 		for _, k := range c18ListenerKinds {
 			cfg.Servers = append(cfg.Servers, mk(k))
 		}
 		cfg.Metrics.Addr = fmt.Sprintf("127.0.0.1:%d", c18FreePort())
 	} else {
+		// the kinds are fixed per cell; addresses (and what occupies them) are fresh in every round
+		kinds := make([]string, n)
 		for i := 0; i < n; i++ {
-			kind := gen.Pick(r, c18ListenerKinds)
+			kinds[i] = gen.Pick(r, c18ListenerKinds)
+			if forcedFirst != "" && i == pos-1 {
+				kinds[i] = forcedFirst
+			}
 			if i == pos && failure == "bad-cert" {
-				kind = gen.Pick(r, []string{"tls", "https", "quic"})
+				kinds[i] = gen.Pick(r, []string{"tls", "https", "quic"})
 			}
-			sc := mk(kind)
-			if i == pos {
-				switch failure {
-				case "addr-in-use":
-					if kind == "udp" || kind == "quic" {
-						pc, err := net.ListenPacket("udp", sc.Listen)
-						if err != nil {
-							fmt.Println("INCONCLUSIVE could not occupy the address:", err)
-							return 0
+		}
+		buildFail = func() bool {
+			cfg.Servers, srvs, holders = nil, nil, nil
+			for i, kind := range kinds {
+				sc := mk(kind)
+				if i == pos {
+					switch failure {
+					case "addr-in-use":
+						if kind == "udp" || kind == "quic" {
+							pc, err := net.ListenPacket("udp", sc.Listen)
+							if err != nil {
+								fmt.Println("INCONCLUSIVE could not occupy the address:", err)
+								return false
+							}
+							holders = append(holders, pc)
+						} else {
+							l, err := net.Listen("tcp", sc.Listen)
+							if err != nil {
+								fmt.Println("INCONCLUSIVE could not occupy the address:", err)
+								return false
+							}
+							holders = append(holders, l)
 						}
-						holders = append(holders, pc)
-					} else {
-						l, err := net.Listen("tcp", sc.Listen)
-						if err != nil {
-							fmt.Println("INCONCLUSIVE could not occupy the address:", err)
-							return 0
-						}
-						holders = append(holders, l)
+					case "bad-cert":
+						sc.Tls.Cert = filepath.Join(dir, "does-not-exist.crt")
+					case "unknown-protocol":
+						sc.Protocol = "carrier-pigeon"
 					}
-				case "bad-cert":
-					sc.Tls.Cert = filepath.Join(dir, "does-not-exist.crt")
-				case "unknown-protocol":
-					sc.Protocol = "carrier-pigeon"
 				}
+				cfg.Servers = append(cfg.Servers, sc)
 			}
-			cfg.Servers = append(cfg.Servers, sc)
+			return true
+		}
+		if !buildFail() {
+			return 0
 		}
 	}
-	time.Sleep(50 * time.Millisecond)
-	base := socketCount()
 	type runRes struct {
 		closeFn func()
 		err     error
 	}
+	round := 0
+again:
+	time.Sleep(50 * time.Millisecond)
+	base := socketCount()
 	rc := make(chan runRes, 1)
 	go func() {
 		fn, err := router.VerifRun(context.Background(), cfg)
@@ -574,6 +606,11 @@ func c18RouterChild(args []string) int {
 			fmt.Printf("VIOL socket-left-after-failed-start %d socket(s) more than before the start are still open 3 s after the failed start\n", nn-(base-len(holders)))
 		}
 		fmt.Println("COUNT failed_starts_reported_as_error 1")
+		// the same failing start again in this process (a close that races with a server's accept
+		// loop may behave differently once everything is warm)
+		if round++; round < 3 && buildFail() {
+			goto again
+		}
 		return 0
 	}
 	if rr.err != nil {
